@@ -1043,15 +1043,22 @@ theorem appendOctetString_nonempty (pos : Nat) (bytes : Bytes) (ext : Bool) (lbP
       simp only [hsr, if_true] at h
       split at h
       · simp [err] at h
-      · split at h <;>
+      · split at h
         · simp only [Except.ok.injEq] at h
           apply ne_nil_of_length_pos
           rw [← h]
           simp only [List.length_append]
           omega
+        · split at h
+          · simp [Aper.panic] at h
+          · simp only [Except.ok.injEq] at h
+            apply ne_nil_of_length_pos
+            rw [← h]
+            simp only [List.length_append]
+            omega
     · simp only [hsr, if_false] at h
       split at h
-      · simp [err] at h
+      · split at h <;> simp [err, Aper.panic] at h
       · cases hf : fragLoop 8 sr lb.toNat (bytes.length / 16384 + 1 + 1) (pos + pre.length) (bytes.length - lb.toNat) (bytesToBits bytes) with
         | error e => rw [hf] at h; simp at h
         | ok b' =>
@@ -1082,15 +1089,22 @@ theorem appendBitString_nonempty (pos : Nat) (bytes : Bytes) (len : Nat) (ext : 
         simp only [hsr, if_true] at h
         split at h
         · simp [err] at h
-        · split at h <;>
+        · split at h
           · simp only [Except.ok.injEq] at h
             apply ne_nil_of_length_pos
             rw [← h]
             simp only [List.length_append]
             omega
+          · split at h
+            · simp [Aper.panic] at h
+            · simp only [Except.ok.injEq] at h
+              apply ne_nil_of_length_pos
+              rw [← h]
+              simp only [List.length_append]
+              omega
       · simp only [hsr, if_false] at h
         split at h
-        · simp [err] at h
+        · split at h <;> simp [err, Aper.panic] at h
         · cases hf : fragLoop 1 sr lb.toNat (len / 16384 + 1 + 1) (pos + pre.length) (len - lb.toNat) content with
           | error e => rw [hf] at h; simp at h
           | ok b' =>
